@@ -161,3 +161,16 @@ Theorem C12_selection_equal_height_refuted :
   fork_gen rs = mkout [5] [] [] /\ fork_gen rs' = mkout [6] [] [].
 Proof. exact equal_height_example. Qed.
 Print Assumptions C12_selection_equal_height_refuted.
+
+(** valid as-is, on the oracles: every payload handed out was admitted by the tree (not a stateful duplicate, its
+    block present, and the arbitrary rest of the verdict okB/okV/okA) in the state made by exactly the payloads handed
+    out before it in body order - the state in which a block carrying exactly this PopData applies that payload *)
+Theorem C12_selection_replays :
+  forall (par bop cont szB szV szA : N -> N) L treeB dupB dupV dupA okB okV okA order,
+    let out := generatePop par bop cont szB szV szA L treeB dupB dupV dupA okB okV okA order in
+    (forall pre b post, o_ctx out = pre ++ b :: post -> admB par treeB dupB okB pre b = true) /\
+    (forall pre t post, o_vtbs out = pre ++ t :: post -> admV cont treeB dupV okV (o_ctx out) pre t = true) /\
+    (forall pre a post, o_atvs out = pre ++ a :: post ->
+                        admA bop treeB dupA okA (o_ctx out) (o_vtbs out) pre a = true).
+Proof. exact selection_replays_lemma. Qed.
+Print Assumptions C12_selection_replays.
